@@ -20,6 +20,7 @@ DENY = ["zap", "zap a b"]
 def config_text(jail_cwd: str) -> str:
     return (f'deny zap "NOZAP"\nallow okcmd\nask askcmd "ASKMSG"\n'
             f"allow-redirect {jail_cwd}/out/*\nallow-redirect {jail_cwd}/sub/out/*\ndeny-redirect {jail_cwd}/secret/* \"NOSECRET\"\n"
+            f"allow-redirect {jail_cwd}/only/*\nallow-redirect {jail_cwd}/sub/deep/*\n"
             f"ask-redirect {jail_cwd}/askme/*\n")
 
 
@@ -128,3 +129,62 @@ def rand_inner(rng: random.Random, depth: int, pool) -> str:
     if "{Xq}" in tmpl and "'" in inner:
         tmpl = "{X}"
     return fill(tmpl, inner)
+
+
+# ------------------------------------------------------------------------------------------------------
+# Directory tracking: every way a directory change (A) can precede a relative write (B) - or look as if it
+# did.  {A} and {B} are filled with every pair of the variants below; the programs are judged by running the
+# approved ones under bash (only/ is granted at the top only, deep/ below sub/ only).
+CD_SLOTS = [
+    "{A}; {B}", "{A} && {B}", "{A} || {B}", "{A}\n{B}", "{A} & {B}", "{A} | {B}", "( {A} ); {B}", "{ {A}; }; {B}", "{ {A}; {B}; }", "( {A}; {B} )",
+    "if {A}; then {B}; fi", "if {A}; then :; else {B}; fi", "if {A}; then :; elif {B}; then :; fi", "if {A}; then :; elif :; then {B}; fi",
+    "if :; then {A}; fi; {B}", "if false; then :; else {A}; fi; {B}", "if false; then :; elif {A}; then {B}; fi", "if {A}; then :; fi; {B}",
+    "if false; then :; elif {A}; then :; else {B}; fi", "if :; then {A}; {B}; fi", "if ! {A}; then {B}; fi",
+    "while {A}; do {B}; break; done", "while {A}; do break; done; {B}", "until {A}; do {B}; break; done", "until {A}; do break; done; {B}",
+    "while :; do {A}; break; done; {B}", "for v in a; do {A}; done; {B}", "for v in a b; do {B}; {A}; done", "for v in a; do {A}; {B}; done",
+    "case x in x) {A};; esac; {B}", "case x in x) {A};& y) {B};; esac", "case x in x) {A}; {B};; esac", "! {A}; {B}", "time {A}; {B}",
+    "{A}; ( {B} )", "{A}; echo $({B})", "{A}; cat <({B})", "{A}; { {B}; }", "{A}; if :; then {B}; fi", "{A}; while :; do {B}; break; done",
+    "{A}; for v in a; do {B}; done", "{A}; ls | {B}", "{A}; {B} &", "{A}; ! {B}", "{A}; time {B}", "{A}; ls; {B}", "{A} && ls && {B}",
+    "ls | {A}; {B}", "{A} > /dev/null; {B}", "{ {A}; } > /dev/null; {B}", "f() { {A}; }; {B}", "{A}; f() { {B}; }",
+    "select v in a; do {A}; break; done <<< 1; {B}", "for ((i=0;i<1;i++)); do {A}; done; {B}", "[[ -n a ]] && {A}; {B}", "(( 1 )) && {A} && {B}",
+    "{A}; [[ -n a ]] > only/g2", "{A}; (( 1 )) > deep/g2",
+]
+CD_A = ["cd sub", "cd sub && false", "cd sub || true", "cd nosuch", "cd sub; false", "! cd sub", "cd sub > /dev/null", "X=1 cd sub", "pushd sub",
+        "cd ./sub/", "cd sub/../sub", "cd sub && cd ..", "cd sub; cd sub", "cd -- sub", "cd -P sub", 'cd "$PWD"/sub', "cd $(echo sub)", "cd sub/.. && cd sub",
+        "cd /", "cd .", "cd", "builtin cd sub", "command cd sub", "eval cd sub", "test -d sub && cd sub", "cd sub 2> /dev/null || exit 1"]
+CD_B = ["ls > only/g", "ls > deep/g", "ls >> ./only/g", "cat f > deep/../deep/g"]
+
+
+def cd_write_programs(tier, rng):
+    out = []
+    pairs = [(a, b) for a in CD_A for b in CD_B]
+    for k, tmpl in enumerate(CD_SLOTS):
+        for j, (a, b) in enumerate(pairs):
+            if tier == "quick" and (j + k) % 4 and a not in ("cd sub", "cd sub && false", "cd sub || true") and "{B}" in tmpl:
+                continue
+            if "{B}" not in tmpl and b != CD_B[0]:
+                continue
+            out.append((f"cd-slot:{k}", tmpl.replace("{A}", a).replace("{B}", b)))
+    return out
+
+
+# ------------------------------------------------------------------------------------------------------
+# Two redirections on one node: every ordered pair of (operator, target), the same target twice included.
+PAIR_OPS = [">", ">>", "<", "<>", "2>", "&>", ">|", "3>", "2>>", "{v}>"]
+PAIR_TARGETS = ["out/g", "nogrant", "secret/s", "f", "/dev/null"]
+PAIR_NODES = [("simple", "cat {R}"), ("brace", "{ cat; } {R}"), ("subshell", "( cat ) {R}"), ("while", "while false; do ls; done {R}"),
+              ("if", "if true; then cat; fi {R}"), ("cond", "[[ -n a ]] {R}"), ("in-cmdsub", "echo $(cat {R})")]
+
+
+def redirect_pairs(tier):
+    """[(label, program, (single1, single2))]: the two programs with one of the redirects each are returned for the
+    composition oracle verdict(pair) = join(verdict(single1), verdict(single2))"""
+    reds = [f"{op} {t}" for op in PAIR_OPS for t in PAIR_TARGETS]
+    out = []
+    for nname, tmpl in (PAIR_NODES[:2] if tier == "quick" else PAIR_NODES):
+        for i, r1 in enumerate(reds):
+            for j, r2 in enumerate(reds):
+                if tier == "quick" and nname != "simple" and (i + j) % 5:
+                    continue
+                out.append((f"redirect-pair:{nname}", tmpl.replace("{R}", f"{r1} {r2}"), (tmpl.replace("{R}", r1), tmpl.replace("{R}", r2))))
+    return out
